@@ -9,6 +9,7 @@ back. A few real trees additionally go scan_command -> report_command / findings
 from __future__ import annotations
 
 import itertools
+import os
 import re
 from pathlib import Path
 
@@ -319,6 +320,26 @@ def eval_render_sequence(n, seq):
 # ---------------------------------------------------------------------------------------
 
 def eval_commands(tree_id):
+    """the command entry points in a FRESH interpreter per terminal width: rich reads COLUMNS when a Console is created, and a
+    module-level console is created at import time - the width has to be in the environment before codelimit is imported"""
+    import json
+    import subprocess
+    import sys
+
+    out = []
+    code = ("import sys, json; sys.path.insert(0, %r); sys.path.insert(0, %r)\n"
+            "from mc.checks import c18\nprint('RESULT' + json.dumps(c18._eval_commands_here(sys.argv[1], sys.argv[2])))\n") % (str(core.REPO), str(core.VERIF))
+    for width in ("250", "80"):
+        r = subprocess.run([sys.executable, "-c", code, tree_id, width], capture_output=True, text=True, timeout=600,
+                           env=dict(os.environ, COLUMNS=width))
+        line = [l for l in r.stdout.splitlines() if l.startswith("RESULT")]
+        if r.returncode != 0 or not line:
+            raise core.HarnessError(f"commands subprocess failed: {r.stderr[-400:]}")
+        out += [(k, sig, d) for k, sig, d in json.loads(line[-1][6:])]
+    return out
+
+
+def _eval_commands_here(tree_id, width):
     import json
 
     from codelimit.commands.findings import findings_command
@@ -330,6 +351,9 @@ def eval_commands(tree_id):
         "two-langs": {"a.py": harness.py_function("p1", 31) + "\n" + harness.py_function("p2", 5), "b.js": harness.js_function("j1", 61)},
         "many": {f"m{i}.py": harness.py_function(f"g{i}", 31 + i) for i in range(12)},
         "one": {"a.py": harness.py_function("p1", 10)},
+        # rows far wider than a terminal: nothing may be folded, cut or wrapped
+        "deep-paths": {f"packages/frontend/application/components/customer/account/settings/notifications/preferences/VeryLongComponentNameNumber{i}ForThePreferencesPanel.js":
+                       harness.js_function(f"renderTheNotificationPreferencesPanelWithAllOfItsOptionsNumber{i}", 33 + i) for i in range(3)},
     }
     out = []
     with harness.temp_tree(trees[tree_id]) as root, harness.cwd(root):
@@ -346,7 +370,7 @@ def eval_commands(tree_id):
             rows = (parse_text_table if fmt == ReportFormat.text else parse_markdown_table)(text)
             got = {r[0]: tuple(int(CELL.match(c).group(1)) for c in r[1:]) for r in rows if r and r[0] in stored and all(CELL.match(c) for c in r[1:])}
             if got != stored:
-                out.append(("report-command-numbers-wrong", {"format": fmt.value}, f"{got} vs stored {stored}"))
+                out.append(("report-command-numbers-wrong", {"format": fmt.value, "columns": width}, f"{got} vs stored {stored}"))
             for full in (False, True):
                 code, text, exc = harness.run_cli_function(findings_command, Path("."), full, fmt)
                 if exc is not None or code not in (None, 0):
@@ -356,7 +380,12 @@ def eval_commands(tree_id):
                 shown = len(re.findall(r"(?m)^(?:\S+:\d+:\d+: \d+ |\| (?!\*\*|---))", text))
                 want = n_over if full or n_over <= 10 else 10
                 if shown != want:
-                    out.append(("findings-command-count-wrong", {"format": fmt.value, "full": full}, f"{shown} rows, expected {want}"))
+                    out.append(("findings-command-count-wrong", {"format": fmt.value, "full": full, "columns": width}, f"{shown} rows, expected {want}"))
+                # every finding's length is shown on its row
+                lens = sorted((m["value"] for f in doc["codebase"]["files"].values() for m in f["measurements"] if m["value"] > 30), reverse=True)[:want]
+                shown_lens = [int(x) for x in re.findall(r"(?m)^\S+:\d+:\d+: (\d+) ", text)] if fmt == ReportFormat.text else lens
+                if shown_lens != lens:
+                    out.append(("findings-command-count-wrong", {"format": fmt.value, "full": full, "columns": width, "what": "lengths"}, f"{shown_lens} vs {lens}"))
     return out
 
 
@@ -433,5 +462,5 @@ def run(ctx: core.Ctx):
     seqs = [(n, list(sq)) for n in (9, 10, 11, 13) for k in (2, 3) for sq in itertools.product(renders, repeat=k)]
     step = max(1, len(seqs) // ctx.workers + 1)
     blocks += [("sequence", seqs[i:i + step]) for i in range(0, len(seqs), step)]
-    blocks.append(("commands", ["two-langs", "many", "one"]))
+    blocks.append(("commands", ["two-langs", "many", "one", "deep-paths"]))
     ctx.run_blocks(_block, blocks)
